@@ -98,7 +98,7 @@ def member_instants(m):
     return m["_inst"]
 
 
-class _Timeout(Exception):
+class _Timeout(BaseException):     # not an Exception: `except Exception` in the code under test must not eat it
     pass
 
 
@@ -123,10 +123,11 @@ def with_timeout(fn, secs):
 
 
 def list_c01(m):
-    """first 61 occurrences; the rule carries an UNTIL cap from rr_common.cap_until, which bounds the scan
-    (no timer: an asynchronous exception can leave a lock of the code under test or of coverage.py held)"""
+    """first 61 occurrences under a wall-clock limit (a C01 rule can scan for minutes before its next
+    occurrence).  Only used in pool worker processes without coverage.py (NO_C01): an asynchronous exception
+    inside coverage's tracer callback leaves its lock held.  The rule object is discarded after a timeout."""
     import itertools as IT
-    return [to_z(d) for d in IT.islice(iter(build_member(m)), 61)]
+    return with_timeout(lambda: [to_z(d) for d in IT.islice(iter(build_member(m)), 61)], 0.08)
 
 
 def gen_c01_rule(r):
@@ -161,7 +162,7 @@ def gen_c01_rule(r):
         m = {"kind": "c01", "case": case, "cache": r.random() < 0.3}
         try:
             inst = list_c01(m)
-        except Exception:
+        except (Exception, _Timeout):
             continue
         if len(inst) > 60 or (not inst and r.random() < 0.8) or inst != sorted(set(inst)):
             continue
@@ -190,7 +191,7 @@ def vary_c01(r, m):
             return dict(clean(m))
         m2["_inst"] = inst
         return m2
-    except Exception:
+    except (Exception, _Timeout):
         return dict(clean(m))
 
 
@@ -300,7 +301,25 @@ def exc_obs(ex):
     return ["EXC", type(ex).__name__]
 
 
+STALL_SECS = 10
+STALLS = [0]        # per process: a shard stops after a few stalls (each one costs STALL_SECS)
+
+
+def guarded(fn):
+    """run the implementation on one case under a watchdog: a stall (e.g. a lock left held) becomes the
+    outcome ["STALL"] instead of hanging the check"""
+    try:
+        return with_timeout(fn, STALL_SECS)
+    except _Timeout:
+        STALLS[0] += 1
+        return ["STALL"]
+
+
 def impl_set(s):
+    return guarded(lambda: impl_set_(s))
+
+
+def impl_set_(s):
     """list(rset) then the published length (count() after a full iteration returns _len)"""
     from dateutil import rrule as R
     try:
@@ -379,6 +398,10 @@ def enc_tagged(s):
 
 
 def impl_tagged(s):
+    return guarded(lambda: impl_tagged_(s))
+
+
+def impl_tagged_(s):
     from dateutil import rrule as R
     try:
         rs = R.rruleset(cache=bool(s.get("cache")))
@@ -461,6 +484,11 @@ def split_obs(flat, n):
 
 
 def impl_history(cached, ops):
+    r = guarded(lambda: impl_history_(cached, ops))
+    return [["STALL"]] * len(ops) if r == ["STALL"] else r
+
+
+def impl_history_(cached, ops):
     from dateutil import rrule as R
     rs = R.rruleset(cache=bool(cached))
     its = []
@@ -785,6 +813,13 @@ def worker(job):
     rule is listed) is itself reported"""
     import traceback
     try:
+        if job[0] == "cov":
+            # four small shards in this process under coverage.py
+            tier = job[3]
+            cov_jobs = [("sets", "cov", 60, tier), ("hist", "cov", 120, tier), ("stale", "cov", 60, tier),
+                        ("tagged", "cov", 60, tier)]
+            parts, summary = measure_anchor_coverage(lambda: [worker_(j) for j in cov_jobs])
+            return {"cov_parts": list(zip(cov_jobs, parts)), "cov_summary": summary}
         return worker_(job)
     except Exception as ex:
         return {"stats": {"evaluations": 0, "model_diff": 0, "spec_diff": 0, "tiebreak_diff": 0,
@@ -811,6 +846,8 @@ def worker_(job):
         it = (small_scope_sets(tier) if kind == "small" else
               (gen_set(r) for _ in range(n)) if kind == "sets" else (gen_c01_set(r) for _ in range(n)))
         for s in it:
+            if STALLS[0] >= 3:
+                break
             a = enc_set(s)
             im = impl_set(s)
             mf, ml, sp = o.call(E_MODEL_FIRST, a), o.call(E_MODEL_LAST, a), o.call(E_SPEC, a)
@@ -847,6 +884,8 @@ def worker_(job):
                 samples.append({"stream": kind, "input": set_json(s), "impl": im, "model": mf, "spec": sp})
     elif kind == "tagged":
         for _ in range(n):
+            if STALLS[0] >= 3:
+                break
             s = gen_tagged(r)
             a = enc_tagged(s)
             im = impl_tagged(s)
@@ -864,12 +903,16 @@ def worker_(job):
                                 "exr": [[t, m["elems"]] for t, m in s["exr"]], "exd": s["exd"]}, "impl": im, "model": mo})
     elif kind in ("hist", "stale"):
         for _ in range(n):
+            if STALLS[0] >= 3:
+                break
             h = gen_history(r, stale=(kind == "stale"))
             check_history(o, h, kind, st, viol, samples, bump)
     elif kind == "smallhist":
         first = int(tag)
         for length in range(1, n + 1):
             for ops in small_scope_histories(first, length):
+                if STALLS[0] >= 3:
+                    break
                 for cached in (False, True):
                     check_history(o, {"cached": cached, "ops": ops}, kind, st, viol, samples, bump, shrink=False)
     o.close()
@@ -904,7 +947,8 @@ def check_history(o, h, kind, st, viol, samples, bump, shrink=True):
         mild = o.call(E_MILD, [1 if h["cached"] else 0] + enc_ops(ops)) == [1]
         bump("%s: spec-diff with mild=%s" % (kind, mild))
         pre = {"input": hist_json(h), "first_wrong_op": d, "model_agrees_with_impl": im == mf, "mild_in_model": mild}
-        hh = shrink_history(o, h) if (shrink and not m_stale_iterator(pre)) else h
+        stalled = any(x == ["STALL"] for x in im)
+        hh = shrink_history(o, h) if (shrink and not stalled and not m_stale_iterator(pre)) else h
         im2, mf2, _ml2, sp2 = eval_history(o, hh)
         d2 = first_spec_diff(im2, sp2)
         if d2 is None:
@@ -1070,7 +1114,7 @@ def main():
         for k, v in st["hist"].items():
             total["hist"][k] = total["hist"].get(k, 0) + v
         if tier == "quick":
-            plan = {"sets": (4, 700), "c01sets": (4, 60), "tagged": (1, 1500), "hist": (4, 750), "stale": (2, 300)}
+            plan = {"sets": (4, 700), "c01sets": (4, 40), "tagged": (1, 1500), "hist": (4, 750), "stale": (2, 300)}
             procs = 4
         else:
             plan = {"sets": (16, 15000), "c01sets": (16, 600), "tagged": (4, 10000), "hist": (32, 15000), "stale": (8, 6000)}
@@ -1079,13 +1123,34 @@ def main():
         jobs += [("smallhist", str(k), 4 if tier == "quick" else 5, tier) for k in range(len(SMALL_ALPHABET))]
         for kind, (shards, n) in plan.items():
             jobs += [(kind, str(i), n, tier) for i in range(shards)]
-        cov_jobs = [("sets", "cov", 60, tier), ("hist", "cov", 120, tier), ("stale", "cov", 60, tier),
-                    ("tagged", "cov", 60, tier)]
-        cov_results, cov_summary = measure_anchor_coverage(lambda: [worker(j) for j in cov_jobs])
-        with multiprocessing.Pool(procs) as pool:
-            results = pool.map(worker, jobs, chunksize=1)
-        jobs = cov_jobs + jobs
-        results = cov_results + results
+        # every shard runs in a pool worker under a wall-clock budget: a shard that does not come back
+        # (a stall in the implementation or in the check) is reported, the check itself never hangs
+        budget = 420 if tier == "quick" else 2400
+        cov_summary = {"available": False}
+        pool = multiprocessing.Pool(procs)
+        t_pool = time.time()
+        asyncs = [(job, pool.apply_async(worker, (job,))) for job in [("cov", "0", 0, tier)] + jobs]
+        jobs, results = [], []
+        for job, ar in asyncs:
+            try:
+                res = ar.get(timeout=max(1.0, budget - (time.time() - t_pool)))
+            except multiprocessing.TimeoutError:
+                res = {"stats": {"evaluations": 0, "model_diff": 0, "spec_diff": 0, "tiebreak_diff": 0,
+                                 "nontrivial_keys": [], "hist": {}},
+                       "violations": [({"kind": "shard did not finish within the wall-clock budget (stall in the "
+                                                "implementation or in the check)", "input": None, "shard": list(job),
+                                        "budget_s": budget}, False)],
+                       "samples": []}
+            if "cov_parts" in res:
+                cov_summary = res["cov_summary"]
+                for j, part in res["cov_parts"]:
+                    jobs.append(j)
+                    results.append(part)
+            else:
+                jobs.append(job)
+                results.append(res)
+        pool.terminate()
+        pool.join()
         for job, res in zip(jobs, results):
             st = res["stats"]
             for k in ("evaluations", "model_diff", "spec_diff", "tiebreak_diff"):
